@@ -233,7 +233,7 @@ def rule_klatt_layout(rep, tier, rule="K-layout"):
     def pts(rows):
         return Lst([Tup([fl(t), fl(v)]) for t, v in rows])
     lo, hi = fl(0.125), fl(1.75)
-    plain = [("phonation", []), ("pitch", [(0.25, 120.5), (1.5, 3.28e-20), (1.625, 0.0)]), ("flutter", []),
+    plain = [("phonation", []), ("pitch", [(0.25, 120.5), (1.5, 3.28e-20), (1.625, 0.0)]), ("flutter", [(0.875, 0.25)]),  # exactly one point
              ("voicingAmplitude", [(0.5, 60.0), (0.75, 1.29e+20), (1.0, 12345.678)])]
     subs = {"formants": [("formants [1]", [(0.25, 550.25), (0.5, 1234.0)]), ("formants [2]", [(0.25, 1500.0), (0.375, 98.765)])],
             # eleven sub-tiers: numbering runs past 9, where the order of the names is not their lexicographic order
